@@ -30,3 +30,4 @@ def run(prog, rep):
     _riosb.run_string_buffers(prog, rep)
     from ..rules import r_del as _rd3
     _rd3.run(prog, rep)
+    r_val.run_link_first(prog, rep)
